@@ -591,7 +591,7 @@ def observe_expr(case):
 
 
 OBSERVERS = {"matrix": observe_matrix, "wrap": observe_wrap, "perm": observe_perm, "expr": observe_expr,
-             "life": lambda case: observe_life(case), "xsess": lambda case: observe_xsess(case),
+             "life": lambda case: observe_life(case), "xsess": lambda case: observe_xsess_bounded(case),
              "pbs": lambda case: observe_pbs(case), "pserr": lambda case: observe_pserr(case)}
 
 
@@ -1320,6 +1320,13 @@ def observe_life(case):
             if k == "mk":
                 comps.pop(op["c"], None)
                 kinds.pop(op["c"], None)
+            if k == "assign" and op.get("via") == "compute":
+                # the call is observed for what it does to the parameters: an exception raised AFTER `assign`, while the
+                # symbolic matrix is built (a parameter left without value and without symbol by a rejected fix_value),
+                # is not an outcome of the assignment
+                import traceback
+                if not any(fr.name == "assign" for fr in traceback.extract_tb(e.__traceback__)):
+                    res = None
         out["out"].append(res)
         out["snaps"].append(snap())
     return out
@@ -2089,6 +2096,27 @@ def observe_xsess(case):
     return out
 
 
+def observe_xsess_bounded(case, seconds=40):
+    """`observe_xsess` under a wall-clock bound: sympy's evaluation of a pathological expression can take minutes;
+    such a case is reported as not compared (counted, and kept in the evidence)"""
+    import signal
+
+    def _alarm(signum, frame):
+        raise TimeoutError
+    try:
+        prev = signal.signal(signal.SIGALRM, _alarm)
+    except ValueError:          # not in the main thread of the process
+        return observe_xsess(case)
+    signal.alarm(seconds)
+    try:
+        return observe_xsess(case)
+    except TimeoutError:
+        return {"timeout": True}
+    finally:
+        signal.alarm(0)
+        signal.signal(signal.SIGALRM, prev)
+
+
 def observe_pbs(case):
     from perceval.components import PBS
     out = {}
@@ -2205,6 +2233,8 @@ def x_model_mat(rows):
 
 
 def judge_xsess(case, obs, reps):
+    if obs.get("timeout"):
+        return []
     rep = reps[0]
     if "err" in rep:
         return [("broken", "lean-driver", f"xsess request rejected: {rep['err']}")]
@@ -3111,6 +3141,8 @@ def record_case(chk, stream, case, obs):
         chk.count("perm_size", n)
         if "err" in obs:
             chk.branch("perm-rejected")
+        if "sym" in obs:
+            chk.branch("sym:PERM")
         chk.case(("P", tuple(case["l"])), case["l"] != list(range(n)),
                  _sample(chk, stream, {"stream": "perm", "l": case["l"]}) if n >= 4 else None)
     elif stream == "pbs":
@@ -3215,6 +3247,10 @@ def record_case(chk, stream, case, obs):
 
 def record_xsess(chk, case, obs):
     ops = case["ops"]
+    if obs.get("timeout"):
+        chk.count("xsess_not_compared", "observer-timeout")
+        chk.extra.setdefault("xsess_timeouts", []).append(case)
+        return
     chk.count("xsess_history_len", len(ops))
     asts = {o["id"]: o["ast"] for o in ops if o["k"] == "xnew"}
     state = {}          # Expression object -> "set" | "fixed"
@@ -3403,7 +3439,7 @@ def setup(chk):
                                  "pserr:param", "pserr:amplitude-wrapped"] + [
                                  "life-raises:" + e for e in ("ValueError", "RuntimeError", "TypeError",
                                                               "ZeroDivisionError", "KeyError")] + [
-                                 "sym:" + x_label(k, c) for k, c in X_KINDS] + ["sym:PBS", "sym-at-point", "sym-U",
+                                 "sym:" + x_label(k, c) for k, c in X_KINDS] + ["sym:PBS", "sym:PERM", "sym-at-point", "sym-U",
                                                                                   "sym-sweep", "xexpr-sweep"] + [
                                  f"symslot:{k}:{cl}" for k in ("BS", "PS", "WP", "HWP", "QWP", "PR")
                                  for cl in ("num", "free", "valued", "fixed", "expr-free", "expr-valued",
